@@ -77,6 +77,12 @@ func marshalTTY(v any, isTTY bool, defaultRoot, defaultElement string) ([]byte, 
 		}
 
 	case [][]string:
+		if len(t) == 0 {
+			// a table without even a heading row
+			v = []any{}
+			break
+		}
+
 		var i int
 		v = make([]any, len(t)-1)
 		err := types.Table2Map(t, func(m map[string]any) error {
